@@ -145,8 +145,11 @@ def _body(
     is_ice = (True if ice else False) if ICE_RELEVANT else False
     s1_ghost = s1g if S1_RELEVANT else 0
     spec = A.VSpec("v0", KIND, c, plug=p, memb=mv, ice=is_ice)
+    # C10 grid: the other station s1 carries a membership different from s0's (the next one of the list), so that being
+    # admitted at one station says nothing about the other
     w = A.build_world(
-        (spec,), tot, g, q, stalls, sg, r0_disp=rd, r0_present=rp, s0_memb=m_s, b0_memb=m_b, r0_memb=m_r, s1_g=s1_ghost
+        (spec,), tot, g, q, stalls, sg, r0_disp=rd, r0_present=rp, s0_memb=m_s, b0_memb=m_b, r0_memb=m_r, s1_g=s1_ghost,
+        s1_memb=(m_s + 1) % 5 if ORACLE == "C10" else 0,
     )
     if w is None:
         return True
